@@ -310,13 +310,55 @@ type Filled struct {
 	NFilled int
 	Depths  map[int]bool
 	Texts   int
+	Zeros   int // fields set to the zero value of their type (non-nil pointer to false/0/"", empty slice/map)
 }
 
 // BadTextDen: one in BadTextDen string-cast fields receives a text that is not
 // drawn from the always-valid generator (0 = never).
 var BadTextDen = 1
 
+// zeroText is the text of the Go zero value of a scalar type ("" if there is none to give).
+func zeroText(t reflect.Type) (string, bool) {
+	if t == reflect.TypeOf(time.Duration(0)) {
+		return "0s", true
+	}
+	switch t.Kind() {
+	case reflect.String:
+		return "", true
+	case reflect.Bool:
+		return "false", true
+	case reflect.Int, reflect.Int8, reflect.Int16, reflect.Int32, reflect.Int64,
+		reflect.Uint, reflect.Uint8, reflect.Uint16, reflect.Uint32, reflect.Uint64, reflect.Float32, reflect.Float64:
+		return "0", true
+	}
+	return "", false
+}
+
+// setToZero makes a nil-able field "set to its zero value": a non-nil pointer
+// to false / 0 / "", an empty non-nil slice or map.
+func setToZero(fv reflect.Value) bool {
+	switch fv.Kind() {
+	case reflect.Ptr:
+		if fv.Type().Elem().Kind() == reflect.Struct || fv.Type().Elem().Kind() == reflect.Ptr {
+			return false
+		}
+		fv.Set(reflect.New(fv.Type().Elem()))
+	case reflect.Slice:
+		fv.Set(reflect.MakeSlice(fv.Type(), 0, 0))
+	case reflect.Map:
+		fv.Set(reflect.MakeMap(fv.Type()))
+	default:
+		return false
+	}
+	return true
+}
+
 func textFor(r *coqfmt.Rng, t reflect.Type) string {
+	if r.Chance(1, 6) {
+		if z, ok := zeroText(t); ok {
+			return z
+		}
+	}
 	if BadTextDen > 0 && r.Chance(1, BadTextDen) {
 		return rty.TextFor(r, t)
 	}
@@ -371,7 +413,11 @@ func Fill(r *coqfmt.Rng, t, tt reflect.Type, c []M, num, den int) Filled {
 			fv.Set(reflect.ValueOf(&s))
 			texts = append(texts, s)
 		} else {
-			rty.GenValue(r, fv, rty.VOpts{NilNum: 1, NilDen: 4}, 0)
+			if !(r.Chance(1, 6) && setToZero(fv)) {
+				rty.GenValue(r, fv, rty.VOpts{NilNum: 1, NilDen: 4}, 0)
+			} else {
+				f.Zeros++
+			}
 		}
 		base := strings.Count(sf.Tag.Get("dialsfieldpath"), ",")
 		leafDepths(fv, base, f.Depths, &f.NFilled)
